@@ -160,9 +160,11 @@ class Msg:
         n.name = name
         return Msg(n, self.fq + "." + name, self.file)
 
-    def enum(self, name, *values, numbers=None):
+    def enum(self, name, *values, numbers=None, allow_alias=False):
         e = self.pb.enum_type.add()
         e.name = name
+        if allow_alias:
+            e.options.allow_alias = True
         for i, v in enumerate(values):
             ev = e.value.add()
             ev.name = v
@@ -228,9 +230,11 @@ class File:
         m.name = name
         return Msg(m, "." + self.pb.package + "." + name, self)
 
-    def enum(self, name, *values, numbers=None):
+    def enum(self, name, *values, numbers=None, allow_alias=False):
         e = self.pb.enum_type.add()
         e.name = name
+        if allow_alias:
+            e.options.allow_alias = True
         for i, v in enumerate(values):
             ev = e.value.add()
             ev.name = v
